@@ -113,6 +113,9 @@ func (e Exports) NewImporter(fset *token.FileSet, syn []*Synthetic) *Importer {
 	return im
 }
 
+// Fset is the file set the importer's packages were read into.
+func (im *Importer) Fset() *token.FileSet { return im.fset }
+
 func (im *Importer) Import(path string) (*types.Package, error) {
 	im.Calls = append(im.Calls, path)
 	if im.Hook != nil {
